@@ -117,7 +117,7 @@ Definition covered (strE stmE : bytes -> res bytes) (to_os : bool) (io : iobj) (
         (forall p x, get (ODict d) p = Some x ->
            if exempt (ODict d) p then get (ODict d') p = Some x
            else exists x', get (ODict d') p = Some x' /\ encryptDeep strE x = Ok x') /\
-        (if type_is nXRef d || single_crypt filters then raw' = raw else stmE raw = Ok raw')
+        (if type_is nXRef d || skips_crypt filters then raw' = raw else stmE raw = Ok raw')
   | EmMember o =>
       (* in clear inside the current object stream; the object stream itself is written as an
          IStream whose Type is ObjStm and whose only filter is Flate: see objstm_data_enciphered *)
@@ -151,8 +151,8 @@ Proof.
            if exempt (ODict d) p then get (ODict d') p = Some x
            else exists x', get (ODict d') p = Some x' /\ encryptDeep strE x = Ok x').
     { intros p x Hg. eapply subobject_enciphered; eauto. }
-    rewrite Hx in H.
-    destruct (type_is nXRef d || single_crypt filters) eqn:Hskip.
+    rewrite Hx, write_skips_eq in H.
+    destruct (type_is nXRef d || skips_crypt filters) eqn:Hskip.
     + inversion H; subst. simpl. exists d, filters, raw. rewrite Hskip. repeat split; auto.
     + destruct (stmE raw) as [raw'|] eqn:Hs; [|discriminate]. inversion H; subst. simpl.
       exists d, filters, raw. rewrite Hskip. repeat split; auto.
@@ -172,7 +172,7 @@ Qed.
    in particular XMP metadata (the writer has no EncryptMetadata=false mode) and object streams *)
 Lemma stream_data_enciphered : forall strE stmE to_os d filters raw d' raw',
   write_iobj true strE stmE to_os (IStream d filters raw) = Ok (EmTopStream d' raw') ->
-  type_is nXRef d = false -> single_crypt filters = false -> stmE raw = Ok raw'.
+  type_is nXRef d = false -> skips_crypt filters = false -> stmE raw = Ok raw'.
 Proof.
   intros strE stmE to_os d filters raw d' raw' H Hx Hc.
   pose proof (emitted_covered strE stmE to_os _ _ H) as Hcov.
